@@ -122,7 +122,8 @@ claim("C01",
       "Rocq theorems for ALL label sequences (any number of agents, any messages, any interleaving of task steps): C01_tokens (token "
       "conservation: an unanswered request is in exactly one of action queue / handler task / response queue; idle connections have "
       "none), C01_alternation (responses never outnumber requests, at most one outstanding; QuitGame is answered by closing), "
-      "C01_queue_bound, C01_quiescent (when nothing can run, every awaited answer is held by a handler parked at one of the three "
+      "C01_answer_fits / C01_keeps_kind (Proofs/CoordKinds.v: a handler step puts at most one item, on its own connection's "
+      "queue, fitting the request it was spawned for, and a parked handler keeps the kind of its request), C01_queue_bound, C01_quiescent (when nothing can run, every awaited answer is held by a handler parked at one of the three "
       "barriers with its wait unreleased), C01_parked_have_agents; per-run obligation C01_dispatch_total (every action type incl. "
       "BlockIP is routed to a replying handler; default and parse-failure arms reply). C01_idle_unmet (barrier invariant K, Proofs/CoordBarrier.v: in every reachable idle state the barrier "
       "holding an unreleased wait is genuinely unmet - somebody has not finished / has not asked / the start event is clear - so "
